@@ -2,6 +2,7 @@ import InfluxQL.Gen.Sites
 import InfluxQL.Lemmas.Total
 import InfluxQL.Lemmas.Neutral
 import InfluxQL.Lemmas.TotalStmtTop
+import InfluxQL.Lemmas.RingTok
 /-!
 # C04 — parsing is total (lexer, expression parser, statement parser)
 
@@ -431,5 +432,30 @@ example (text : Str) (params : List (Str × BoundValue)) :
   obtain ⟨hg, hn, hmu⟩ := init_good text params []
   exact (parseStatement_fuel_suffices_state (fuelFor text) _ hg (by omega)
     (by unfold FuelOK fuelFor; omega)).2.1
+
+/-! ## The token ring of `bufScanner` (state `bufScanner.buf` / `bufScanner.n`) -/
+
+/-- **C04 (the parser model's token buffer is the ring of the code).** `Model/Ring.lean` transcribes
+`bufScanner.scanFunc` / `Unscan` / `curr` with their 3-slot array (slot count and bodies regenerated
+/ pinned by `extract/gen_ring.go`; `currChecked` is the `verif` assertion `n < len(buf)`). For every
+text, parameter map and sequence of `Parser.Scan` / `Parser.ScanRegex` / `Parser.Unscan` calls that the
+assertion lets through, the parser model — which keeps "the last three tokens and a push-back count" —
+returns exactly the tokens that ring returns (followed by the bound-parameter substitution of
+`Parser.scan`). Together with `ring_is_history` (C05) no token is lost, duplicated or read from a stale
+slot by push-back, whatever the parser does within the depth the hook asserts. -/
+theorem parser_token_buffer_is_ring (text : Str) (params : List (Str × BoundValue))
+    (tbl : List (Char × Char)) (ops : List Ring.TOp) (outs : List Lexeme)
+    (r' : Ring.Ring Lexeme Cursor)
+    (hrun : (Ring.Ring.init zeroLexeme (Cursor.ofRunes text)).run (ops.map Ring.TOp.toOp) = some (outs, r')) :
+    ∃ s', Ring.runTok ops (PState.init text params tbl) =
+      some (outs.map (Ring.substParam params), s') :=
+  Ring.tok_run_matches_ring ops _ _ (PState.init text params tbl)
+    (Ring.sim_init zeroLexeme (Cursor.ofRunes text))
+    (Ring.tokRel_init (Cursor.ofRunes text) params tbl) outs r' hrun
+
+-- non-vacuity: `a b` scanned, pushed back twice, scanned again
+example : ∃ outs r', (Ring.Ring.init zeroLexeme (Cursor.ofRunes "a b".toList)).run
+    ([Ring.TOp.scan, .scan, .unscan, .unscan, .scan].map Ring.TOp.toOp) = some (outs, r') ∧
+    outs.map (·.lit) = ["a".toList, " ".toList, "a".toList] := ⟨_, _, rfl, by decide⟩
 
 end InfluxQL.C04
